@@ -501,7 +501,7 @@ func RetVals(ret *ssa.Return) []ssa.Value {
 func Returns(fn *ssa.Function) []*ssa.Return {
 	var out []*ssa.Return
 	eachInstr(fn, func(in ssa.Instruction) {
-		if r, ok := in.(*ssa.Return); ok {
+		if r, ok := in.(*ssa.Return); ok && in.Block() != fn.Recover {
 			out = append(out, r)
 		}
 	})
